@@ -30,6 +30,10 @@ def shape_spec(shape):
                                extra_cols=shape.get('ncols', 2))
     if shape.get('mods'):
         spec['plugins'] = ['mod_tracker']
+    if shape.get('valtype') == 'int':
+        for c in spec['classes'][0]['columns']:
+            if c['name'] in val_cols(shape):
+                c['type'] = 'int'
     return spec
 
 
@@ -53,12 +57,25 @@ def dec_keycomp(shape, v):
     return int(v)
 
 
-def enc_val(v):
-    return None if v is None else 's%d' % v
+# integer-typed value columns (shape['valtype'] == 'int'): the model's small values stand for integers that
+# Python hashes alike (hash(-1) == hash(-2), hash(0) == hash(2**61 - 1)) or that differ only in sign
+INT_POOL = [0, -1, -2, 2 ** 61 - 1, 7, -7]
 
 
-def dec_val(v):
-    return None if v is None else int(v[1:])
+def enc_val(v, shape=None):
+    if v is None:
+        return None
+    if shape is not None and shape.get('valtype') == 'int':
+        return INT_POOL[v]
+    return 's%d' % v
+
+
+def dec_val(v, shape=None):
+    if v is None:
+        return None
+    if shape is not None and shape.get('valtype') == 'int':
+        return INT_POOL.index(int(v))
+    return int(v[1:])
 
 
 class TableEnv(object):
@@ -88,7 +105,7 @@ class TableEnv(object):
                 d[self.end_col] = end
             d[self.op_col] = op
             for c, v in zip(vc, vals):
-                d[c] = enc_val(v)
+                d[c] = enc_val(v, self.shape)
             if self.shape.get('mods'):
                 for c, m in zip(vc, mods):
                     d[c + '_mod'] = bool(m)
@@ -102,7 +119,7 @@ class TableEnv(object):
             key = [dec_keycomp(self.shape, r[c]) for c in kc]
             end = r[self.end_col] if self.validity else None
             mods = [bool(r[c + '_mod']) for c in vc] if self.shape.get('mods') else []
-            out.append([key, r[self.tx_col], end, r[self.op_col], [dec_val(r[c]) for c in vc], mods])
+            out.append([key, r[self.tx_col], end, r[self.op_col], [dec_val(r[c], self.shape) for c in vc], mods])
         self.env.conn.commit()
         out.sort(key=lambda x: (x[0], x[1]))
         return out
